@@ -232,7 +232,9 @@ def _parse_unauthorized(content: bytes) -> AuthenticationError:
 
     """
     payload: object = None
-    with contextlib.suppress(ValueError):
+    # RecursionError: json.loads on a pathologically nested body ("[" * 10_000) — still
+    # just "not the envelope", and must degrade like any other foreign 401 body.
+    with contextlib.suppress(ValueError, RecursionError):
         payload = json.loads(content)
     if isinstance(payload, dict):
         raw_reason = str(payload.get("reason", ""))
